@@ -1,11 +1,16 @@
 /-
 C09 — Bytecode optimisation never changes what a template renders.
 
-Property theorems only (helper lemmas: Lemmas/Optimize.lean, Lemmas/OptimizeSem.lean).
-All statements are about `Optimize.optimize` (Model/Optimize.lean), which the harness
-(harness/src/bin/c09.rs) ties to `Chunk::optimize` on every run: the model applied to the real
-pre-pass listing of every chunk must give the real stored listing, and the same on synthetic
-instruction windows pushed through the real `Chunk::optimize`.
+Property theorems only (helper lemmas: Lemmas/Optimize.lean, Lemmas/OptimizeSem.lean,
+Lemmas/OptimizeSim.lean).  The structural statements are about `Optimize.optimize`
+(Model/Optimize.lean), which the harness (harness/src/bin/c09.rs) ties to `Chunk::optimize` on
+every run: the model applied to the real pre-pass listing of every chunk (recorded inside the real
+pass) must give the real stored listing, and the same on synthetic instruction windows pushed
+through the real `Chunk::optimize`.  The semantic statements are about the VM model of
+Model/PathVm.lean (the five path instructions, compared with the real VM value by value and
+text by text in the harness's "pathvm" stage) and Model/ChunkVm.lean (the interpreter loop with
+every other instruction abstract); the property itself is also evaluated directly on the
+implementation (pass on vs pass off over generated templates and contexts).
 -/
 import TeraModel.Lemmas.Optimize
 import TeraModel.Lemmas.OptimizeSem
@@ -300,8 +305,10 @@ theorem loadpath_eq_unfused (env : Env V σ) (hU : env.isUndef env.undef = true)
 /-- `writepath_eq_unfused`: in every state, `WritePath [n, a₁ … aₘ]` (`m ≥ 0`) gives the same
 stack, the same output and the same ok-vs-error as `LoadName n; LoadAttr a₁; …; LoadAttr aₘ;
 WriteTop` — including a root that is missing, an intermediate field that is missing or holds
-`undefined`, and a last field that exists and holds `undefined` (F3).  Needs what
-`Value::get_attr` guarantees: an undefined value has no attributes. -/
+`undefined`, and a last field that exists and holds `undefined` (F3).  The sink is
+`Env.write v = emit (autoescape && !isSafe v) v`: on both sides the escape decision is taken on
+the value that is written (the leaf), never on the root.  Needs what `Value::get_attr`
+guarantees: an undefined value has no attributes. -/
 theorem writepath_eq_unfused (env : Env V σ) (hU : env.isUndef env.undef = true)
     (hA : ∀ v a, env.isUndef v = true → env.getAttr v a = none)
     (n : String) (hn : n ≠ MAGICAL_DUMP_VAR) (sp w : List Span) (hsp : sp ≠ [])
